@@ -573,7 +573,7 @@ func (x *batchExec) build() flyt.Node {
 		default:
 			cnOpts = append(cnOpts, flyt.WithPrepFuncAny(x.prepCb))
 		}
-		src, ok1 := embedded(flyt.NewNode(cnOpts...), "CustomNode")
+		src, ok1 := embedded(newNode(cnOpts), "CustomNode")
 		dst, ok2 := embedded(b, "CustomNode")
 		if ok1 && ok2 && src.Type() == dst.Type() {
 			dst.Set(src)
